@@ -47,6 +47,12 @@ func patchTreasuresOneSwamp(ctx context.Context, g Gateway, in *hydrapb.PatchTre
 		return nil, false, nil
 	}
 
+	for _, patch := range in.GetPatches() {
+		if err := checkTreasureKey(patch.GetKey()); err != nil {
+			return nil, false, err
+		}
+	}
+
 	// Cap validation runs before swamp summon so a malformed Cap is
 	// surfaced as InvalidArgument regardless of swamp existence.
 	bodyCapPred, bodyCapMax, capErr := buildBodyCapPredicate(in.GetCap())
